@@ -75,7 +75,7 @@ CHECKS["C18"] = dict(cat="other", technique="symbolic abstract interpretation wi
     ref="§8.7 C18")
 
 CHECKS["C16"] = dict(cat="other", technique="symbolic abstract interpretation of the packing / channel-plumbing / clamping / saturating colour functions on symbolic channels",
-    text="Decides the structural second half of the property for all inputs: to_rgb_u32 / to_rgba_u32 / to_argb_u32 put the channels in the documented byte lanes; RGB<->RGBA and HSL<->HSLA keep the colour channels in place and set alpha to 0xFF / 1.0 resp. drop it; RGBA<->HSLA carry alpha through; float -> 8-bit is (clamp(c,0,1)*255) as u8 per channel; 8-bit colour + difference is clamp(i32(c)+d, 0, 255) as u8 (saturates, never wraps); channel accessors read their own lane. The HSL<->RGB round trip is not claimed.",
+    text="Decides the structural second half of the property for all inputs: to_rgb_u32 / to_rgba_u32 / to_argb_u32 put the channels in the documented byte lanes; RGB<->RGBA and HSL<->HSLA keep the colour channels in place and set alpha to 0xFF / 1.0 resp. drop it; RGBA<->HSLA carry alpha through; float -> 8-bit is (clamp(c,0,1)*255) as u8 per channel; 8-bit colour + difference is clamp(i32(c)+d, 0, 255) as u8 (saturates, never wraps); channel accessors read their own lane; HSL->RGB selects its hue sextant by floor(6h) in the float and the 8-bit implementation alike and both realise the standard (c, x, 0) sextant table. The accuracy of the HSL<->RGB round trip is not claimed.",
     note="Trusted: saturating float->int casts; rustc MIR construction. Not decided: HSL<->RGB round-trip accuracy (1e-4 / 8/255), in-range results, hue wrap - numeric.",
     ref="§8.8 C16")
 
